@@ -2,3 +2,5 @@ pub mod dag;
 pub mod tree;
 pub mod globref;
 pub mod fspath;
+pub mod base_repo;
+pub mod prefix_backend;
